@@ -485,6 +485,18 @@ fn main() {
                 eprintln!("harness error: {}: {}", path, e);
                 std::process::exit(2)
             });
+            if v.get("print").and_then(|x| x.as_bool()) == Some(true) {
+                let run = oq3sim::exec::run_world_opts(&world, true);
+                if let RunResult::Returned(o) = &run.result {
+                    if let Some(Err(msg)) = &o.print_outcome {
+                        println!("  oracle S4 [S4/print-panics]: {}", msg);
+                        println!("VIOLATION property={} replay={}", property, path);
+                        std::process::exit(1);
+                    }
+                }
+                println!("replay of {}: recorded violation [{}] does not recur", path, signature);
+                std::process::exit(0);
+            }
             let (verdict, _info, run) = oq3sim::check_world(&world, Some(&property));
             for c in history_json(&run).as_array().unwrap() {
                 println!("  {}", c);
@@ -579,6 +591,54 @@ fn main() {
                     RunResult::Budget => println!("BUDGET <= {:?}", snip),
                 }
             }
+        }
+        "printcheck" => {
+            // S4 (C12): the consumer of the spans. After the analysis of a static world,
+            // `print_errors()` renders every diagnostic with ariadne, re-reading the files through
+            // the seam. It must not panic when the run is otherwise judged fine. Rendered output
+            // goes to stdout (redirect it); results go to stderr and to the exit code.
+            let n = args.num("--runs").unwrap_or(20000);
+            let replay_dir = PathBuf::from(args.value("--replay-dir").unwrap_or_else(|| "/verif/replays".into()));
+            let stream = mix(seed, fnv1a(b"incsim/printcheck"));
+            let (mut judged, mut printed_diags, mut reread_calls, mut bad) = (0u64, 0u64, 0u64, 0u64);
+            let mut first: Option<(u64, World, String)> = None;
+            for i in 0..n {
+                let mut rng = Rng::new(mix(stream, i));
+                let profile = if i % 2 == 0 { Profile::Spans } else { Profile::Gating };
+                let (_s, worlds) = gen::gen_cases_in(&mut rng, profile, "/w", Stratum::Static);
+                let w = &worlds[0];
+                let run = oq3sim::exec::run_world_opts(w, true);
+                let (v, _info) = oq3sim::oracle::judge(w, &run, Some("C12"));
+                if !matches!(v, Verdict::Ok { .. }) {
+                    continue;
+                }
+                if let RunResult::Returned(o) = &run.result {
+                    judged += 1;
+                    reread_calls += o.print_calls.len() as u64;
+                    fn count(l: &oq3sim::exec::ListTree) -> u64 {
+                        l.diags.len() as u64 + l.children.iter().map(count).sum::<u64>()
+                    }
+                    printed_diags += count(&o.lists) + o.num_syntax_errors as u64;
+                    if let Some(Err(msg)) = &o.print_outcome {
+                        bad += 1;
+                        if first.is_none() {
+                            first = Some((i, w.clone(), msg.clone()));
+                        }
+                    }
+                }
+            }
+            eprintln!("PRINTCHECK judged={} diagnostics_rendered={} files_reread={} print_panics={}", judged, printed_diags, reread_calls, bad);
+            if let Some((i, w, msg)) = first {
+                let path = replay_dir.join(format!("C12-print-{}-{}.json", seed, i));
+                let v = json!({"engine":"incsim","property":"C12","oracle":"S4","signature":"S4/print-panics","print":true,
+                    "detail": format!("print_errors() panics although every span is valid: {}", msg),
+                    "verif_seed": seed, "run_index": i, "world": w.to_json()});
+                let _ = report::write_json(&path, &v);
+                eprintln!("  oracle S4 [S4/print-panics]: print_errors() panics although every span is valid: {}", msg);
+                eprintln!("VIOLATION property=C12 replay={}", path.display());
+                std::process::exit(1);
+            }
+            std::process::exit(0);
         }
         "realfs" => {
             let code = oq3sim::realfs::run(&args, seed);
